@@ -15,6 +15,10 @@ package main
 //   Aux.findMethod     lookup, build and store of the effective method in ONE locked region whose
 //                      unlock is deferred; Aux.AddMethod writes the tables under the lock
 //   Package.Set        the new variable enters the table under the package lock
+//   (*Printer) methods keep nothing between calls: no statement of a method of Printer (printer.go)
+//                      assigns to, increments or appends to a package level variable of package slip
+//                      (printing from several routines shares no printer state but the read-only
+//                      print variables)
 //
 // Only counts and booleans are emitted, computed from the syntax tree (go/ast, no type checking);
 // renaming variables, reordering `Lock(); defer Unlock()`, or wrapping the deferred unlock in a
@@ -25,7 +29,9 @@ import (
 	"go/ast"
 	"go/parser"
 	"go/token"
+	"os"
 	"path/filepath"
+	"sort"
 	"strings"
 )
 
@@ -290,6 +296,113 @@ func ccWritesLocked(fd *ast.FuncDecl, fields ...string) (writes int, allLocked b
 	return
 }
 
+// ccPackageVars are the names of the package level variables declared in the non-test Go files of
+// directory dir.
+func ccPackageVars(dir string) (map[string]bool, error) {
+	entries, err := os.ReadDir(dir)
+	if err != nil {
+		return nil, err
+	}
+	vars := map[string]bool{}
+	for _, e := range entries {
+		if e.IsDir() || !strings.HasSuffix(e.Name(), ".go") || strings.HasSuffix(e.Name(), "_test.go") {
+			continue
+		}
+		file, err := parser.ParseFile(token.NewFileSet(), filepath.Join(dir, e.Name()), nil, parser.SkipObjectResolution)
+		if err != nil {
+			return nil, err
+		}
+		for _, d := range file.Decls {
+			gd, ok := d.(*ast.GenDecl)
+			if !ok || gd.Tok != token.VAR {
+				continue
+			}
+			for _, sp := range gd.Specs {
+				if vs, ok := sp.(*ast.ValueSpec); ok {
+					for _, n := range vs.Names {
+						vars[n.Name] = true
+					}
+				}
+			}
+		}
+	}
+	return vars, nil
+}
+
+// ccSharedWrites lists the package level variables (of pkgVars) that the methods with receiver
+// recv in file rel write: the target of an assignment, op-assignment or ++/-- whose root
+// identifier (below index, slice, selector, star and parentheses) is not declared inside the method.
+func ccSharedWrites(repo, rel, recv string, pkgVars map[string]bool) (methods int, written []string, err error) {
+	fset := token.NewFileSet()
+	file, err := parser.ParseFile(fset, filepath.Join(repo, rel), nil, 0)
+	if err != nil {
+		return 0, nil, err
+	}
+	seen := map[string]bool{}
+	for _, d := range file.Decls {
+		fd, ok := d.(*ast.FuncDecl)
+		if !ok || fd.Body == nil || fd.Recv == nil || len(fd.Recv.List) != 1 {
+			continue
+		}
+		t := fd.Recv.List[0].Type
+		if st, ok := t.(*ast.StarExpr); ok {
+			t = st.X
+		}
+		if id, ok := t.(*ast.Ident); !ok || id.Name != recv {
+			continue
+		}
+		methods++
+		target := func(e ast.Expr) {
+			for {
+				switch te := e.(type) {
+				case *ast.IndexExpr:
+					e = te.X
+					continue
+				case *ast.SliceExpr:
+					e = te.X
+					continue
+				case *ast.SelectorExpr:
+					e = te.X
+					continue
+				case *ast.StarExpr:
+					e = te.X
+					continue
+				case *ast.ParenExpr:
+					e = te.X
+					continue
+				}
+				break
+			}
+			id, ok := e.(*ast.Ident)
+			if !ok || !pkgVars[id.Name] {
+				return
+			}
+			if id.Obj != nil && fd.Pos() <= id.Obj.Pos() && id.Obj.Pos() < fd.End() {
+				return // a parameter, the receiver or a local variable of the same name
+			}
+			if !seen[id.Name] {
+				seen[id.Name] = true
+				written = append(written, id.Name)
+			}
+		}
+		ast.Inspect(fd.Body, func(n ast.Node) bool {
+			switch tn := n.(type) {
+			case *ast.AssignStmt:
+				if tn.Tok != token.DEFINE {
+					for _, l := range tn.Lhs {
+						target(l)
+					}
+				}
+			case *ast.IncDecStmt:
+				target(tn.X)
+			}
+			return true
+		})
+	}
+	sort.Strings(written)
+	return methods, written, nil
+}
+
 // every call `X.SetSynchronized(true)` sits in an if whose condition is `!Y.Synchronized()`
 func ccSetSyncGuarded(fd *ast.FuncDecl) (calls int, guarded bool) {
 	guarded = true
@@ -334,7 +447,7 @@ func ccSetSyncGuarded(fd *ast.FuncDecl) (calls int, guarded bool) {
 
 func genConcCode(repo string) (string, error) {
 	var b strings.Builder
-	b.WriteString("/- GENERATED by extract/conccode.go from pkg/gi/{channel,channel-push,with-mutex-lock,run}.go,\n   pkg/clos/set-synchronized.go, scope.go, pkg/generic/uax.go, package.go. Do not edit. -/\nnamespace SlipVerif.Gen.ConcCode\n\n")
+	b.WriteString("/- GENERATED by extract/conccode.go from pkg/gi/{channel,channel-push,with-mutex-lock,run}.go,\n   pkg/clos/set-synchronized.go, scope.go, pkg/generic/uax.go, package.go, printer.go. Do not edit. -/\nnamespace SlipVerif.Gen.ConcCode\n\n")
 	nat := func(name string, v int, doc string) {
 		fmt.Fprintf(&b, "/-- %s -/\ndef %s : Nat := %d\n", doc, name, v)
 	}
@@ -444,6 +557,21 @@ func genConcCode(repo string) (string, error) {
 	}
 	psWrites, psLocked := ccWritesLocked(setFn, "vars")
 	boolean("pkgSetWriteLocked", 0 < psWrites && psLocked, "Package.Set: a new variable enters the variable table under the package lock")
+
+	pkgVars, err := ccPackageVars(repo)
+	if err != nil {
+		return "", err
+	}
+	pm, pw, err := ccSharedWrites(repo, "printer.go", "Printer", pkgVars)
+	if err != nil {
+		return "", err
+	}
+	nat("printerMethods", pm, "printer.go: methods of Printer looked at")
+	doc := "printer.go: package level variables written (assigned, op-assigned, incremented, appended to or stored into) by a method of Printer"
+	if len(pw) > 0 {
+		doc += ": " + strings.Join(pw, ", ")
+	}
+	nat("printerSharedWrites", len(pw), doc)
 
 	b.WriteString("\nend SlipVerif.Gen.ConcCode\n")
 	return b.String(), nil
